@@ -32,8 +32,10 @@ func (c *HTTPResponder) AddHeader(name string, value string) {
 
 func (c *HTTPResponder) SetHeaders(headers http.Header) {
 	for key, values := range headers {
+		// Replace the field, then add every value: calling SetHeader per value kept only the last one
+		c.writer.Header().Del(key)
 		for _, value := range values {
-			c.SetHeader(key, value)
+			c.AddHeader(key, value)
 		}
 	}
 }
